@@ -39,7 +39,7 @@ def _evaluate(case):
     info, viols = {}, []
     try:
         src = tables.source(case["src"])
-        q = O.build(src, case["ops"])
+        q = O.build(src, case["ops"], method=case.get("method", "tasks"))
         info["kind"] = O.kind_of(q)
         info["skey"] = ekey(q.expr)
     except CaseTimeout:
